@@ -267,8 +267,9 @@ def check_rates_fn(R, prog, rc, site, hk, nat=None, lst=None, comps=("0", "1")):
     if lst is not None and not callable(lst):
         lref = RR(lst)
         lst = lambda t, lref=lref: RR(t) == lref
-    nat = nat or (lambda t: loaded_field(prog, t, "state", ["total_native_token"], CRATE))
-    lst = lst or (lambda t: loaded_field(prog, t, "state", ["total_liquid_stake_token"], CRATE))
+    # (a field of a small value type built from the state — `Totals::from(&state).liquid` — is the state's field)
+    nat = nat or (lambda t: loaded_field(prog, t, "state", ["total_native_token"], CRATE) or (t[0] == "field" and loaded_field(prog, _rt(prog, t, 2), "state", ["total_native_token"], CRATE)))
+    lst = lst or (lambda t: loaded_field(prog, t, "state", ["total_liquid_stake_token"], CRATE) or (t[0] == "field" and loaded_field(prog, _rt(prog, t, 2), "state", ["total_liquid_stake_token"], CRATE)))
     is_lst_zero = lambda t: t[0] == "call" and t[1] == "cosmwasm_std::Uint128::is_zero" and lst(t[2][0])
     is_nat_zero = lambda t: t[0] == "call" and t[1] == "cosmwasm_std::Uint128::is_zero" and nat(t[2][0])
     rem, n = bool_world_edges(c, is_lst_zero, False)
